@@ -8,11 +8,13 @@
 EXTENDS Naturals, Integers, Sequences, FiniteSets, TLC, Json, IOUtils
 
 Rec == ndJsonDeserialize(IOEnv.TRACE)
-VARIABLES l, viol, trusted, base, devOf, drift
-vars == <<l, viol, trusted, base, devOf, drift>>
+VARIABLES l, viol, trusted, base, devOf, drift,
+          mtlast      \* concurrent callers ("mt"): the base time each thread read last
+vars == <<l, viol, trusted, base, devOf, drift, mtlast>>
+NoThreads == [t \in 0..63 |-> 0]
 CapViol(v, new) == v \cup {x \in new : Cardinality({y \in v : y.prop = x.prop}) < 40}
 When(c, S) == IF c THEN S ELSE {}
-Init == l = 1 /\ viol = {} /\ trusted = {} /\ base = 0 /\ devOf = <<>> /\ drift = {}
+Init == l = 1 /\ viol = {} /\ trusted = {} /\ base = 0 /\ devOf = <<>> /\ drift = {} /\ mtlast = NoThreads
 
 FileRec(e, f) == LET I == {i \in 1..Len(e.files) : e.files[i].f = f} IN
                  IF I = {} THEN [f |-> f, dev |-> "?", ctime |-> 0, mtime |-> 0] ELSE e.files[CHOOSE i \in I : TRUE]
@@ -23,7 +25,8 @@ Check(e) ==
       trustedAfter == IF e.ev = "add" /\ e.err = "" /\ e.panic = "" THEN trusted \cup {target.dev} ELSE trusted
   IN   When(e.panic # "", {"panic in " \o e.ev \o ": " \o e.panic})
   \cup When(e.base < base, {"the base time decreased"})
-  \cup When(e.base # base /\ ~\E i \in 1..Len(e.files) : e.files[i].ctime = e.base /\ e.files[i].dev \in trustedAfter,
+  \* (during "mt" the files are touched by the module itself many times; only the last change-time is visible here)
+  \cup When(e.ev # "mt" /\ e.base # base /\ ~\E i \in 1..Len(e.files) : e.files[i].ctime = e.base /\ e.files[i].dev \in trustedAfter,
             {"the base time changed to a value that is not the change-time of a file on a trusted device"})
   \cup When(e.base_vok # 1 \/ e.vok # 1, {"a returned (base time, voucher) pair does not pass the voucher check"})
   \cup When(e.ev = "observe" /\ e.err = "" /\ target.dev \notin trusted /\ (e.ret # -1 \/ e.base # base),
@@ -48,11 +51,23 @@ PolicyDrift(e) ==
        /\ (e.sr_ans = 1) # ShouldRefresh(e.sr_now, e.sr_leeway, e.base, trusted),
        {[run |-> e.run, line |-> l, what |-> "should_refresh_base_time disagrees with the policy (age > leeway and a trusted path exists)"]})
 
+\* One observation of one of several concurrent callers: it forced a refresh (which reported e.rep) and then read e.seen.
+\* Whatever the other threads do, the base time this thread reads never decreases and is at least what its refresh reported.
+MtCheck(e) ==
+       When(e.vok # 1, {"a returned (base time, voucher) pair does not pass the voucher check (concurrent callers)"})
+  \cup When(e.seen < e.rep, {"concurrent callers: a refresh reported a base time, the base time read afterwards is older"})
+  \cup When(e.seen < mtlast[e.t] \/ e.seen < base, {"concurrent callers: the base time decreased"})
+
 Next == /\ l <= Len(Rec) /\ l' = l + 1
         /\ LET e == Rec[l] IN
-           IF e.ev = "reset" THEN trusted' = {} /\ base' = 0 /\ UNCHANGED <<viol, devOf, drift>>      \* a new process
-           ELSE IF e.ev \in {"end", "reset_after_crash"} THEN UNCHANGED <<viol, trusted, base, devOf, drift>>
-           ELSE /\ drift' = (IF Cardinality(drift) < 20 THEN drift \cup PolicyDrift(e) ELSE drift)
+           IF e.ev = "reset" THEN trusted' = {} /\ base' = 0 /\ mtlast' = NoThreads /\ UNCHANGED <<viol, devOf, drift>>      \* a new process
+           ELSE IF e.ev \in {"end", "reset_after_crash"} THEN UNCHANGED <<viol, trusted, base, devOf, drift, mtlast>>
+           ELSE IF e.ev = "mt_obs" THEN
+                /\ viol' = CapViol(viol, {[run |-> e.run, line |-> l, prop |-> "C19", what |-> w] : w \in MtCheck(e)})
+                /\ mtlast' = [mtlast EXCEPT ![e.t] = e.seen]
+                /\ UNCHANGED <<trusted, base, devOf, drift>>
+           ELSE /\ mtlast' = NoThreads
+                /\ drift' = (IF Cardinality(drift) < 20 THEN drift \cup PolicyDrift(e) ELSE drift)
                 /\ viol' = CapViol(viol, {[run |-> e.run, line |-> l, prop |-> "C19", what |-> w] : w \in Check(e)})
                 /\ trusted' = IF e.ev = "add" /\ e.err = "" /\ e.panic = "" /\ "f" \in DOMAIN e
                               THEN trusted \cup {FileRec(e, e.f).dev} ELSE trusted
